@@ -38,3 +38,7 @@ let engines : (string, script -> string list) Hashtbl.t = Hashtbl.create 16
 let concretizers : (string, script -> string list) Hashtbl.t = Hashtbl.create 16
 let register name f = Hashtbl.replace engines name f
 let register_concretizer name f = Hashtbl.replace concretizers name f
+(* extraction cross-check (tools/coqeval.py): name -> script -> one line of decimal numbers per observation,
+   the numeric serialisation of coq/Codes/Codes*.v computed by the EXTRACTED serialiser *)
+let coders : (string, script -> string list) Hashtbl.t = Hashtbl.create 16
+let register_coder name f = Hashtbl.replace coders name f
